@@ -1770,6 +1770,11 @@ impl TransportService {
             .collect()
     }
 
+    /// Number of events queued in the inbox of this service.
+    pub fn verif_inbox_len(&self) -> usize {
+        self.rx.len()
+    }
+
     /// Value the shared substream id allocator will hand out next.
     pub fn verif_next_substream_id(&self) -> usize {
         self.next_substream_id.load(Ordering::Relaxed)
